@@ -257,3 +257,25 @@ Qed.
 Example schema_string_roundtrip_ex :
   modify (canon (modify ex_schema)) = modify ex_schema /\ canon (modify ex_schema) <> ex_schema.
 Proof. split; [reflexivity | discriminate]. Qed.
+
+(* Observational immutability (seeded/C12-10's class): in the model a schema is a value, and what a
+   table stores is its string form.  The codec schema — hence validate, encode, decode, the numpy
+   dtype, everything the correspondence compares — is a function of that string form: two schemas
+   with the same canonical form have the same working schema.  The history family schema_aliasing
+   checks that the implementation still behaves like this function after objects read out of the
+   schema have been mutated. *)
+Theorem behaviour_function_of_string s1 s2 :
+  nodup_keys s1 -> nodup_keys s2 ->
+  canon (modify s1) = canon (modify s2) -> modify s1 = modify s2.
+Proof.
+  intros H1 H2 E.
+  rewrite <- (schema_string_roundtrip s1 H1), <- (schema_string_roundtrip s2 H2), E. reflexivity.
+Qed.
+
+Corollary same_string_same_codec round32 widen32 s1 s2 :
+  nodup_keys s1 -> nodup_keys s2 -> canon (modify s1) = canon (modify s2) ->
+  (forall v, valid (modify s1) v = valid (modify s2) v) /\
+  (forall v, encode round32 (modify s1) v = encode round32 (modify s2) v) /\
+  (forall fuel buf, decode widen32 fuel (modify s1) buf = decode widen32 fuel (modify s2) buf) /\
+  np_dtype (modify s1) = np_dtype (modify s2).
+Proof. intros H1 H2 E. rewrite (behaviour_function_of_string s1 s2 H1 H2 E). repeat split. Qed.
